@@ -52,6 +52,41 @@ def unparse(n):
         return '<%s>' % type(n).__name__
 
 
+def _fn_of(n):
+    """the model's Fn object of the (innermost) function an expression node belongs to, if it is linked into a tree"""
+    k = n
+    for _ in range(200):
+        if k is None:
+            return None
+        f = getattr(k, '_fn', None)
+        if f is not None and isinstance(k, (ast.FunctionDef, ast.AsyncFunctionDef)):
+            return f
+        k = getattr(k, '_parent', None)
+    return None
+
+
+def same(e, text):
+    """does expression e denote `text`?  Either literally, or in closed form (locals replaced by the definition that reaches the use):
+    `size = query.size; f(size)` passes `query.size`.  Blanks are ignored."""
+    want = text.replace(' ', '')
+    lit = unparse(e).replace(' ', '')
+    if lit == want:
+        return True
+    f = _fn_of(e)
+    if f is None:
+        return False
+    try:
+        return f.ctext(e) == want
+    except Exception:       # noqa
+        return False
+
+
+def same_args(args, texts):
+    """the argument expressions denote the given texts, one by one (see same())"""
+    args = list(args)
+    return len(args) == len(texts) and all(same(a, t) for a, t in zip(args, texts))
+
+
 def const_value(n, default=None):
     if isinstance(n, ast.Constant):
         return n.value
